@@ -481,8 +481,16 @@ struct ExecObs {
 
 impl<'s> Runner<'s> {
     pub fn new(sc: &'s Scenario, mode: Prop, want_trace: bool) -> Runner<'s> {
+        let mut progs: Vec<Vec<u8>> = sc.progs.iter().map(|p| p.bytes.clone()).collect();
+        // programs that peek at another program's bytes get that program's address in this process
+        for (i, p) in sc.progs.iter().enumerate() {
+            if p.class == Class::PeekOtherProgram && (p.p0 as usize) < progs.len() && p.p0 as usize != i && progs[i].len() >= 24 {
+                let addr = progs[p.p0 as usize].as_ptr() as u64;
+                patch_peek(&mut progs[i], addr);
+            }
+        }
         let arena = Arena {
-            progs: sc.progs.iter().map(|p| p.bytes.clone()).collect(),
+            progs,
             packets: sc.packets.clone(),
             mbuffs: if sc.mbuffs.is_empty() { vec![Vec::new()] } else { sc.mbuffs.clone() },
             empty_anchor: vec![0u8; 8],
@@ -1170,9 +1178,9 @@ impl<'s> Runner<'s> {
 
     fn check_verifier_log(&mut self, at: usize, opname: &'static str, expect: Option<(u8, &[u8])>) -> Step<()> {
         let log = tls(|t| std::mem::take(&mut t.verifier_log));
-        for (vid, h, len) in &log {
+        for (vid, _h, len) in &log {
+            // (not the hash of the bytes: programs that embed an address differ from process to process)
             self.log.byte(*vid);
-            self.log.u64(*h);
             self.log.u64(*len as u64);
         }
         match expect {
@@ -1407,7 +1415,7 @@ impl<'s> Runner<'s> {
                 if !o.is_ok() && !o.is_err() {
                     return Err(self.c10("history-dependent-panic-or-crash/set_verifier".into(), at, format!("set_verifier -> {}", o.short())));
                 }
-                let loaded: Option<Vec<u8>> = m.prog.map(|p| self.sc.progs[p].bytes.clone());
+                let loaded: Option<Vec<u8>> = m.prog.map(|p| self.arena.progs[p].clone()); // as loaded (patched)
                 match (o.is_ok(), predicted_ok) {
                     (true, true) => {
                         self.model.as_mut().unwrap().verifier = *vid;
